@@ -726,6 +726,13 @@ type FaultPlan struct {
 	Log    []string
 }
 
+// Add registers a fault while proxies may already be consulting the plan.
+func (p *FaultPlan) Add(f *Fault) {
+	p.mu.Lock()
+	p.Faults = append(p.Faults, f)
+	p.mu.Unlock()
+}
+
 func (p *FaultPlan) consult(method string, target uint64, args []any) (FaultMode, error) {
 	if p == nil {
 		return 0, nil
